@@ -104,6 +104,9 @@ func (s *sim) nextByz(rng *simcore.RNG, roll int) simcore.Op {
 	if s.gst {
 		rate = 30
 	}
+	if s.cfg.Bool("oneval") {
+		rate = 400 // the adversary is most of the network
+	}
 	if rng.Intn(1000) >= rate {
 		return nil
 	}
@@ -335,7 +338,9 @@ func (s *sim) applyByz(op simcore.Op) bool {
 		if op.Int("t") == 2 {
 			typ = tmproto.PrecommitType
 		}
-		v := &types.Vote{Type: typ, Height: h, Round: int32(op.Int("r")), BlockID: bid, Timestamp: time.Now().UTC(), ValidatorAddress: b.addr, ValidatorIndex: vi}
+		// timestamps that keep block time (the weighted median of the commit) increasing
+		ts := time.Now().UTC().Add(time.Duration(h-s.genDoc.InitialHeight+1)*time.Second + time.Duration(op.Int("r"))*time.Millisecond)
+		v := &types.Vote{Type: typ, Height: h, Round: int32(op.Int("r")), BlockID: bid, Timestamp: ts, ValidatorAddress: b.addr, ValidatorIndex: vi}
 		signed := v.Copy()
 		chain := s.chainID
 		key := b.key
